@@ -28,14 +28,14 @@ theorem addU64_zero_left (L : Nat) (h : L < two64) : addU64 0 L = L := by
   unfold addU64 wrapU64; simp [Nat.mod_eq_of_lt h]
 
 /-- first page (offset branch, offset 0) -/
-theorem first_page (kvs : List (Bytes × α)) (h : Bytes → α → Bool) (L : Nat) (hL : 1 ≤ L) (hL' : L < two64) :
+theorem first_page (kvs : List (Bytes × α)) (h : Bytes → α → Bool) (L : Nat) (hL : 1 ≤ L) (hL' : L + 1 < two64) :
     filtered kvs { key := [], limit := L } (fun k v => some (h k v)) =
       some { items := ((hitsOf h kvs).map (·.2)).take L,
              next := ((((hitsOf h kvs).map (·.1)).drop L).head?).getD [], total := 0 } := by
   have hne : ¬ (L = 0) := by omega
   simp only [filtered, hne, if_false, iter, Bool.not_false, if_true, ne_eq, not_true_eq_false, and_false,
     Nat.lt_irrefl, false_and]
-  rw [addU64_zero_left L hL', offLoop_spec h 0 L kvs 0 [] (Nat.zero_le _)]
+  rw [addU64_zero_left L (by omega), offLoop_spec h 0 L hL' kvs 0 [] (Nat.zero_le _)]
   simp
 
 /-- a later page (key branch) : the request key is the key of an entry of the section -/
@@ -97,7 +97,7 @@ and page limit `1 ≤ L < 2^64`, following `next_key` from a first request witho
 concatenation of the pages — exactly the entries of the section that match the filter, each once, in
 store order. -/
 theorem walkKeys_complete (kvs : List (Bytes × α)) (h : Bytes → α → Bool) (L : Nat) (hs : Section kvs) (hL : 1 ≤ L)
-    (hL' : L < two64) :
+    (hL' : L + 1 < two64) :
     walkKeys kvs (fun k v => some (h k v)) L (kvs.length + 2) [] = some ((hitsOf h kvs).map (·.2)) := by
   rw [show kvs.length + 2 = (kvs.length + 1) + 1 from rfl, walkKeys_succ, first_page kvs h L hL hL']
   simp only []
@@ -135,13 +135,13 @@ theorem walkKeys_complete (kvs : List (Bytes × α)) (h : Bytes → α → Bool)
 
 /-- **Offset-based continuation.**  The page at offset `o` with limit `L` is exactly the matching entries
 number `o … o+L-1`; consecutive pages `o = 0, L, 2L, …` therefore partition the matching entries. -/
-theorem offset_page (kvs : List (Bytes × α)) (h : Bytes → α → Bool) (o L : Nat) (hL : 1 ≤ L) (hfit : o + L < two64) :
+theorem offset_page (kvs : List (Bytes × α)) (h : Bytes → α → Bool) (o L : Nat) (hL : 1 ≤ L) (hfit : o + L + 1 < two64) :
     (filtered kvs { offset := o, limit := L } (fun k v => some (h k v))).map (·.items) =
       some ((((hitsOf h kvs).map (·.2)).drop o).take L) := by
   have hne : ¬ (L = 0) := by omega
-  have hadd : addU64 o L = o + L := by unfold addU64 wrapU64; exact Nat.mod_eq_of_lt hfit
+  have hadd : addU64 o L = o + L := by unfold addU64 wrapU64; exact Nat.mod_eq_of_lt (by omega)
   simp only [filtered, hne, if_false, iter, Bool.not_false, if_true, ne_eq, not_true_eq_false, and_false]
-  rw [hadd, offLoop_spec h o (o + L) kvs 0 [] (Nat.zero_le _)]
+  rw [hadd, offLoop_spec h o (o + L) hfit kvs 0 [] (Nat.zero_le _)]
   have e1 : o + L - max 0 o = L := by omega
   simp [e1]
 
